@@ -235,13 +235,13 @@ SHORT = ["é", "€", "\U0001F600", "aé", "é€", "{\"é\":\"€\"}", "\U0001F
          "\ufeff", "\ufeff[1]", "\ufeff\"é\"", "\"\x00\"", " \ufeff"]
 
 
-LONGER = ["{\"é\":\"€\U0001F600\"}", "[\"\U0001F600é€\",1]", "\"ééééééé\""]
+LONGER = ["{\"é\":\"€\U0001F600\"}", "[\"\U0001F600é€\",1]", "\"ééééééé\"", "{\"\U0001F600\":[\"é€\",null]}", "\ufeff[\"\U0001F600\",\"€é\"]"]
 
 
 def cases_c(tier):
     for i, s in enumerate(SHORT + (LONGER if tier == "thorough" else [])):
         b = s.encode("utf-8")
-        if len(b) > (19 if tier == "thorough" else 14):
+        if len(b) > (23 if tier == "thorough" else 14):
             continue
         for comp in gen.compositions(len(b)):
             yield (i, tuple(comp))
